@@ -142,40 +142,54 @@ def vm_tie(ctx, out_dir):
         fam, typed, globs, source = (cs[i].split("\t", 3) + ["", "", "", ""])[:4]
         typed = typed == "typed"
         source = source.replace("\\n", "\n")
-        h = hashlib.sha1(source.encode()).hexdigest()[:12]
+        # --- is the module inside what the model VM models?  Decided before any outcome is compared. ---
+        if globs != "globals-modelled":
+            unmodelled_globals += 1      # refers to a global the model VM has no built-ins for (prelude / std modules)
+            continue
         if v.startswith("(skip"):
-            unsupported_instr += 1
+            unsupported_instr += 1       # float arithmetic, polymorphic variants
+            continue
+        if "(unknown)" in v or v.startswith("(stuck 6"):
+            unmodelled_globals += 1      # used a field of a modelled global that has no model built-in
             continue
         if v == "(fuel)" or v.startswith("(err model"):
             fuel += 1
-            continue
-        if v.startswith("(stuck") and globs != "globals-modelled":
-            unmodelled_globals += 1      # the module calls into a global the model VM has no built-in for
             continue
         if "shape-mismatch" in src:
             continue
         executed += 1
         if v.startswith("(bad"):
-            divs.append(("precompiled:model-vm:decode:" + h, v, src, pre, source))
+            slug = "-".join(v[5:].replace(")", "").split()[:6])
+            divs.append(("precompiled:model-vm:decode:" + slug, v, src, pre, source))
             continue
         a, b, c = vm_norm(v, typed), vm_norm(src, typed), vm_norm(pre, typed)
+
+        def cls(x):
+            return "stuck" if x.startswith("(stuck") else " ".join(x.split()[:2]).strip("(") if x.startswith("(err") else "val"
+
+        def first_difference(x, y):
+            if cls(x) != cls(y):
+                return "stuck" if cls(x) == "stuck" else "outcome-class"
+            if x.split("(log")[0] != y.split("(log")[0]:
+                return "value"
+            return "effect-log"
+
         if a == b == c:
             agree += 1
         elif b != c:
             # source and real precompiled run differ: that is `precompiled-differs` (reported by the harness); say on
             # which side the model VM is
             side = "agrees-with-source" if a == b else "agrees-with-precompiled" if a == c else "third-outcome"
-            divs.append(("precompiled:model-vm:real-vm-differs:%s:%s" % (side, h), v, src, pre, source))
+            divs.append(("precompiled:model-vm:real-vm-differs:" + side, v, src, pre, source))
         else:
-            kind = "stuck" if v.startswith("(stuck") else "effect-log" if a.split("(log")[0] == b.split("(log")[0] else "outcome"
-            divs.append(("precompiled:model-vm:%s:%s" % (kind, h), v, src, pre, source))
+            divs.append(("precompiled:model-vm:outcome:" + first_difference(a, b), v, src, pre, source))
     total = len(vo)
     ctx.coverage["model_vm_on_decoded_real_modules"] = {
         "modules": total,
         "executed_by_model_vm": executed,
         "three_way_agreement (model VM on decoded module = source run = real precompiled run)": agree,
         "not_executed:unsupported_instruction (float arithmetic, poly variants)": unsupported_instr,
-        "not_executed:calls_a_global_without_model_builtin (prelude/std modules)": unmodelled_globals,
+        "not_executed:refers_to_a_global_or_extern_without_model_builtin (prelude/std modules)": unmodelled_globals,
         "not_executed:out_of_fuel": fuel,
         "executed_fraction": round(executed / total, 4) if total else 0.0,
         "divergences": len(divs),
@@ -224,7 +238,11 @@ def run(ctx):
         "run and the real precompiled run; %d divergences"
         % (mv.get("modules", 0), mv.get("executed_by_model_vm", 0), 100 * mv.get("executed_fraction", 0),
            mv.get("three_way_agreement (model VM on decoded module = source run = real precompiled run)", 0), len(vm_divs))))
-    for (key, v, src, pre, source) in vm_divs[:10]:
+    seen_keys = set()
+    for (key, v, src, pre, source) in vm_divs:
+        if key in seen_keys or len(seen_keys) >= 10:
+            continue
+        seen_keys.add(key)
         # C12_load_behaves_model_vm: running the decoded skeleton is running the encoded function, so a different
         # outcome means the real loader/VM does something else with these bytes than the model VM does.
         ctx.violation(key, "the real serialised module, decoded by the model codec and run on the model VM, does not behave like "
